@@ -30,7 +30,10 @@ theorem handleDevicePayload_split {s s' : RState} {id : Nat} (h : handleDevicePa
             split at h3
             · exact Shape.congr_left (drainNotifications_shape _ h3).rt_ra rfl rfl rfl
             · simp only [Except.ok.injEq] at h3; subst h3; exact Shape.refl _
-          refine ⟨s3, (a.trans b).trans c3, ?_⟩
+          split at h
+          · simp at h
+          rename_i s4 h4
+          refine ⟨s4, ((a.trans b).trans c3).trans (wakeTurnMoved_shape h4).rt_ra, ?_⟩
           split at h
           · exact .inr ⟨_, h⟩
           · simp only [Except.ok.injEq] at h; exact .inl h.symm
@@ -134,9 +137,9 @@ theorem config_reachable {cfg : Config} {s : RState} (hr : Reachable cfg s) : s.
           have e1 : s1.config = s.config := by
             unfold hnTakeover at h1
             split at h1
-            · rcases handleDisconnection_effect h1 with ⟨_, rfl⟩ | ⟨c, _, _, _, e3, _⟩
+            · rcases handleDisconnection_effect h1 with ⟨_, rfl⟩ | ⟨c, _, _, _, _, _, e3, _, hw⟩
               · rfl
-              · exact e3
+              · rw [(wakeParked_shape hw).config]; exact e3
             · simp only [Except.ok.injEq] at h1; subst h1; rfl
           split at h
           · simp only [Except.ok.injEq] at h; subst h; exact e1
@@ -145,9 +148,9 @@ theorem config_reachable {cfg : Config} {s : RState} (hr : Reachable cfg s) : s.
     | event id ev h =>
       obtain ⟨s1, hs, h' | ⟨r, hd⟩⟩ := events_split h
       · subst h'; exact hs.config
-      · rcases handleDisconnection_effect hd with ⟨_, rfl⟩ | ⟨c, _, _, _, e3, _⟩
+      · rcases handleDisconnection_effect hd with ⟨_, rfl⟩ | ⟨c, _, _, _, _, _, e3, _, hw⟩
         · exact hs.config
-        · rw [e3]; exact hs.config
+        · rw [(wakeParked_shape hw).config, e3]; exact hs.config
     | consume b h =>
       rcases consume_shape h with ⟨_, hc⟩ | ⟨id, _, hs⟩
       · exact hc.2.1
@@ -155,5 +158,192 @@ theorem config_reachable {cfg : Config} {s : RState} (hr : Reachable cfg s) : s.
     | push l p h => exact h.2.1
     | drain l h => exact h.2.1
   rw [key]; exact hi
+
+/-! ### the local `turn_moved` is empty between steps -/
+
+theorem foldl_g_turnMoved (f : Ack → Ghost) : ∀ (acks : List Ack) (s : RState),
+    (acks.foldl (fun s a => s.g (f a)) s).turnMoved = s.turnMoved
+  | [], s => rfl
+  | a :: r, s => by simp only [List.foldl_cons]; rw [foldl_g_turnMoved f r]; rfl
+
+theorem hnPre_turnMoved (s : RState) (spec : ConnectSpec) : (hnPre s spec).turnMoved = s.turnMoved := by
+  unfold hnPre
+  simp only []
+  rw [foldl_g_turnMoved]
+  unfold hnWill
+  split <;> (split <;> rfl)
+
+theorem handleDisconnection_turnMoved {s s' : RState} {id : Nat} {r : Option String}
+    (h : handleDisconnection s id r = .ok s') : s'.turnMoved = s.turnMoved := by
+  rw [handleDisconnection_eq] at h
+  split at h
+  · simp only [Except.ok.injEq] at h; subst h; rfl
+  · rw [(wakeParked_wakeFrame h).turnMoved]; exact (hdFinal_fields _ _ _ _).2.2.2.2.2.2.2.2
+
+theorem handleNewConnection_turnMoved {s s' : RState} {spec : ConnectSpec}
+    (h : handleNewConnection s spec = .ok s') : s'.turnMoved = s.turnMoved := by
+  rw [handleNewConnection_eq] at h
+  simp only [] at h
+  split at h
+  · simp only [Except.ok.injEq] at h; subst h; rfl
+  · split at h
+    · simp at h
+    · rename_i s1 h1
+      have e1 : s1.turnMoved = s.turnMoved := by
+        unfold hnTakeover at h1
+        split at h1
+        · exact (handleDisconnection_turnMoved h1).trans rfl
+        · simp only [Except.ok.injEq] at h1; subst h1; rfl
+      split at h
+      · simp only [Except.ok.injEq] at h; subst h; exact e1
+      · obtain ⟨_, hr⟩ := hnRegister_ok h
+        rw [(reschedule_wakeFrame hr).turnMoved, hnPre_turnMoved, e1]
+
+theorem dlMatches_turnMoved {s s' : RState} {topic : String} {v : List Nat}
+    (h : dlMatches s topic = .ok (s', v)) : s'.turnMoved = s.turnMoved := by
+  unfold dlMatches at h
+  split at h
+  · simp only [Except.ok.injEq, Prod.mk.injEq] at h; obtain ⟨rfl, _⟩ := h; rfl
+  · split at h
+    · simp only [] at h
+      split at h
+      · simp only [Except.ok.injEq, Prod.mk.injEq] at h; obtain ⟨rfl, _⟩ := h; rfl
+      · simp at h
+    · simp at h
+
+theorem appendToFilters_turnMoved : ∀ (idxs : List Nat) {s s' : RState} {p : Pub},
+    appendToFilters s idxs p = .ok s' → s'.turnMoved = s.turnMoved
+  | [], s, s', p, h => by simp only [appendToFilters, Except.ok.injEq] at h; subst h; rfl
+  | i :: is, s, s', p, h => by
+    simp only [appendToFilters] at h
+    split at h
+    · simp at h
+    · rename_i s1 h1
+      rw [appendToFilters_turnMoved is h]
+      unfold appendToFilter at h1
+      split at h1
+      · simp at h1
+      · simp only [Except.ok.injEq] at h1; subst h1
+        split <;> rfl
+
+theorem handleLastWill_turnMoved {s s' : RState} {cid : String} (h : handleLastWill s cid = .ok s') :
+    s'.turnMoved = s.turnMoved := by
+  unfold handleLastWill at h
+  split at h
+  · simp only [Except.ok.injEq] at h; subst h; rfl
+  · simp only [] at h
+    split at h
+    · simp only [Except.ok.injEq] at h; subst h; rfl
+    · split at h
+      · simp at h
+      · rename_i s2 idxs h2
+        split at h
+        · simp at h
+        · rename_i s3 h3
+          rw [(drainNotifications_wakeFrame _ h).turnMoved]
+          show s3.turnMoved = _
+          rw [appendToFilters_turnMoved idxs h3, dlMatches_turnMoved h2]
+          show (updateRetained _ _ _).turnMoved = _
+          unfold updateRetained
+          split
+          · rfl
+          · split <;> rfl
+
+theorem handleShadow_turnMoved {s s' : RState} {id : Nat} {f : String} (h : handleShadow s id f = .ok s') :
+    s'.turnMoved = s.turnMoved := by
+  unfold handleShadow at h
+  split at h
+  · simp only [Except.ok.injEq] at h; subst h; rfl
+  · split at h
+    · simp only [Except.ok.injEq] at h; subst h; rfl
+    · split at h
+      · simp only [Except.ok.injEq] at h; subst h; rfl
+      · simp only [Except.ok.injEq] at h; subst h
+        simp only [wakeLink]
+        split <;> rfl
+
+/-- one step leaves the local `turn_moved` empty if it starts empty: the two functions that fill it
+    (`handle_device_payload` via UNSUBSCRIBE, `consume` via `noteTurn`) end with `wakeTurnMoved` -/
+theorem turnMoved_step {s s' : RState} {op : Op} {out : Out} (h0 : s.turnMoved = [])
+    (h : step s op = .ok (s', out)) : s'.turnMoved = [] := by
+  cases op with
+  | connect spec =>
+    simp only [step] at h
+    split at h
+    · simp at h
+    · rename_i s1 h1
+      simp only [Except.ok.injEq, Prod.mk.injEq] at h; obtain ⟨rfl, _⟩ := h
+      rw [handleNewConnection_turnMoved h1]; exact h0
+  | push l p =>
+    simp only [step] at h
+    split at h
+    all_goals
+      simp only [Except.ok.injEq, Prod.mk.injEq] at h; obtain ⟨rfl, _⟩ := h; exact h0
+  | drain l =>
+    simp only [step] at h
+    split at h
+    · split at h
+      all_goals
+        simp only [Except.ok.injEq, Prod.mk.injEq] at h; obtain ⟨rfl, _⟩ := h; exact h0
+    · simp only [Except.ok.injEq, Prod.mk.injEq] at h; obtain ⟨rfl, _⟩ := h; exact h0
+  | consume =>
+    simp only [step] at h
+    split at h
+    · simp at h
+    · rename_i s1 b h1
+      simp only [Except.ok.injEq, Prod.mk.injEq] at h; obtain ⟨rfl, _⟩ := h
+      unfold consume at h1
+      split at h1
+      · simp only [Except.ok.injEq, Prod.mk.injEq] at h1; obtain ⟨rfl, _⟩ := h1; exact h0
+      · simp only [] at h1
+        split at h1
+        · simp only [Except.ok.injEq, Prod.mk.injEq] at h1; obtain ⟨rfl, _⟩ := h1; exact h0
+        · split at h1
+          · simp at h1
+          · split at h1
+            · simp at h1
+            · rename_i s3 hw
+              simp only [Except.ok.injEq, Prod.mk.injEq] at h1; obtain ⟨rfl, _⟩ := h1
+              exact wakeTurnMoved_turnMoved hw
+  | event id ev =>
+    simp only [step] at h
+    split at h
+    · simp at h
+    · rename_i s1 h1
+      simp only [Except.ok.injEq, Prod.mk.injEq] at h; obtain ⟨rfl, _⟩ := h
+      cases ev with
+      | deviceData =>
+        simp only [events] at h1
+        unfold handleDevicePayload at h1
+        split at h1
+        · simp only [Except.ok.injEq] at h1; subst h1; exact h0
+        · simp only [] at h1
+          split at h1
+          · simp at h1
+          · split at h1
+            · simp at h1
+            · split at h1
+              · simp at h1
+              · split at h1
+                · simp at h1
+                · rename_i s4 hw
+                  have e4 := wakeTurnMoved_turnMoved hw
+                  split at h1
+                  · rw [handleDisconnection_turnMoved h1]; exact e4
+                  · simp only [Except.ok.injEq] at h1; subst h1; exact e4
+      | ready =>
+        simp only [events] at h1
+        split at h1
+        · rw [(reschedule_wakeFrame h1).turnMoved]; exact h0
+        · simp only [Except.ok.injEq] at h1; subst h1; exact h0
+      | disconnect => simp only [events] at h1; rw [handleDisconnection_turnMoved h1]; exact h0
+      | publishWill c => simp only [events] at h1; rw [handleLastWill_turnMoved h1]; exact h0
+      | shadow f => simp only [events] at h1; rw [handleShadow_turnMoved h1]; exact h0
+      | sendMeters => simp only [events, Except.ok.injEq] at h1; subst h1; exact h0
+      | sendAlerts => simp only [events, Except.ok.injEq] at h1; subst h1; exact h0
+
+/-- in every reachable state (between two steps) the local `turn_moved` is empty -/
+theorem turnMoved_reachable {cfg : Config} {s : RState} (hr : Reachable cfg s) : s.turnMoved = [] :=
+  hr.induction (fun s => s.turnMoved = []) rfl fun _ _ _ _ _ hi h => turnMoved_step (by exact hi) h
 
 end Router
